@@ -92,16 +92,14 @@ Ltac brk H :=
   end.
 (* follow the chain of log extensions from the start state to the end state *)
 Ltac chain :=
-  first
-    [ eassumption
-    | apply extends_refl
-    | apply extends_emit
-    | apply extends_bump
-    | apply extends_set_stat
-    | (eapply extends_trans; [eassumption|]; chain)
-    | (eapply extends_trans; [|apply extends_emit]; chain)
-    | (eapply extends_trans; [|apply extends_bump]; chain)
-    | (eapply extends_trans; [|apply extends_set_stat]; chain) ].
+  match goal with
+  | |- extends ?a ?a => apply extends_refl
+  | H : extends ?a ?b |- extends ?a ?b => exact H
+  | |- extends ?a (emit _ ?b) => apply (extends_trans a b); [chain | apply extends_emit]
+  | |- extends ?a (bump ?b) => apply (extends_trans a b); [chain | apply extends_bump]
+  | |- extends ?a (set_stat _ ?b) => apply (extends_trans a b); [chain | apply extends_set_stat]
+  | H : extends ?a ?m |- extends ?a ?b => apply (extends_trans a m b H); chain
+  end.
 Ltac fin_ext :=
   repeat match goal with
   | H : Res _ _ _ = Res _ _ _ |- _ => inversion H; subst; clear H
@@ -233,7 +231,7 @@ Lemma ieach_extends fn k v b : forall items fr g c fr' g',
 Proof.
   induction items as [|[kv vv] r IHr]; intros fr g c fr' g' H; cbn [ieach] in H.
   - inversion H; subst. apply extends_refl.
-  - repeat brk H; use_all;
+  - destruct k; repeat brk H; use_all;
       try (match type of H with ieach _ _ _ _ _ _ _ _ _ _ = _ => apply IHr in H end); fin_ext.
 Qed.
 Lemma irun_clause_extends fn b fr g c fr' g' :
@@ -271,7 +269,7 @@ Proof.
   - rewrite iexec_break in H. fin_ext.
   - rewrite iexec_continue in H. fin_ext.
   - destruct e; [rewrite iexec_return in H|rewrite iexec_return_none in H]; repeat brk H; use_all; fin_ext.
-  - rewrite iexec_static in H. repeat brk H; fin_ext.
+  - rewrite iexec_static in H. cbv zeta in H. repeat brk H; fin_ext.
   - (* STry *)
     rewrite iexec_try in H.
     destruct (iexec cm funs n fn s1 fr (mark CTry g)) as [|cb fr1 g1] eqn:Eb; [discriminate|].
